@@ -38,8 +38,8 @@ pub async fn room_definition_stream(rng: &mut Rng, out: &mut Out, stats: &mut se
     let plan: Vec<_> = if tier_thorough() { plan } else {
         let mut p: Vec<_> = plan.into_iter().filter(|(m, place, v, _)| (*place == (*m as usize) % 3 || *place == 0 && !matches!(m, RMember::UserEnabled | RMember::UserKey))
             && (v.is_none() || matches!(v, Some(serde_json::Value::Null)) || matches!(v, Some(serde_json::Value::Number(n)) if n.is_i64()) || matches!(v, Some(serde_json::Value::Bool(_))) || matches!(v, Some(serde_json::Value::String(s)) if s == "x y" && matches!(m, RMember::UserEnabled | RMember::UserKey | RMember::RightEntity)))).collect();
-        // the class-11 witness in all three places, first
-        for place in [2usize, 1, 0] { p.insert(0, (RMember::UserEnabled, place, None, "K11 a user row without `enabled`")); }
+        // the witness of the former class 11 in all three places, first
+        for place in [2usize, 1, 0] { p.insert(0, (RMember::UserEnabled, place, None, "former K11 (fixed 86aa554): a user row without `enabled`: the receiver must start again")); }
         p
     };
     let mut b: Option<Inst> = None;
